@@ -17,7 +17,10 @@ Emit == PrintT("BEH " \o ToJson([kind |-> kind, max |-> max, setup |-> setup, pr
 G(k) == [op |-> "get", k |-> k]
 P(k, v, e) == [op |-> "put", k |-> k, v |-> v, exp |-> e]
 F(k) == [op |-> "flush", k |-> k]
-CallsSmall == {G("k1"), G("k2"), P("k1", 2, 5), P("k3", 2, 5), F("k1"), [op |-> "setmax", n |-> 1], [op |-> "hits"]}
+(* "tick": a thread advances the clock (the property quantifies over clock advances issued from the
+   threads too); it is one atomic event of the history, matched by Trace_CacheLin!TTick *)
+CallsSmall == {G("k1"), G("k2"), P("k1", 2, 5), P("k3", 2, 5), F("k1"), [op |-> "setmax", n |-> 1], [op |-> "hits"],
+               [op |-> "tick", d |-> 2]}
 CallsWide == CallsSmall \cup {G("k3"), P("k2", 2, 1), F("k2"), [op |-> "flushall"], [op |-> "reset"], [op |-> "misses"],
                               [op |-> "hitsfor", k |-> "k1"], [op |-> "setmax", n |-> 2]}
 (* setups: sequences of sequential calls/ticks made before the threads start *)
